@@ -16,7 +16,8 @@ TraceSpec == TraceInit /\ [][TraceNext]_<<l, vars>>
 \* viewNow = the configuration read back immediately after the API answered
 AsView(v) == [g |-> [origins |-> v.g.origins, playback |-> v.g.playback],
               d |-> [maxReaders |-> v.d.maxReaders, rda |-> v.d.rda],
-              paths |-> [n \in Names |-> [maxReaders |-> v.paths[n].maxReaders, override |-> v.paths[n].override]]]
+              paths |-> [n \in Names |-> [maxReaders |-> v.paths[n].maxReaders, override |-> v.paths[n].override,
+                                          ports |-> v.paths[n].ports]]]
 ObsView(o) == AsView(o.view)
 
 \* first step at which the real API departs from the decision function; 0 = never
